@@ -349,7 +349,10 @@ def filter_case(case):
             cmap2, rmap2 = rd('commit-map'), rd('ref-map')
             if len(cmap2) < len(cmap):
                 count('second-run-with-a-shorter-commit-map')
-            ans = model().ask(f'oracle-e2e {nopts} {enhex(s_before2)} {enhex(export(repo))} {enhex(cmap2)} {enhex(rmap2)}')
+            # the second run found the first run's commit-map: the old-id translator is on (Frrs/ShortHash.lean), and in a real run
+            # it also learns old -> new for every commit it has written so far
+            nopts2 = nopts + f';shmap={enhex(cmap)};shdyn=1' if cmap.strip() else nopts
+            ans = model().ask(f'oracle-e2e {nopts2} {enhex(s_before2)} {enhex(export(repo))} {enhex(cmap2)} {enhex(rmap2)}')
             if ans.startswith('FAIL'):
                 for part in ans[5:].split(' || '):
                     res['failures'].append((part.split(':')[0].strip(), '(second run in the same repository) ' + part))
@@ -357,7 +360,10 @@ def filter_case(case):
             if model().ask(f'guards {nopts} {enhex(s_before2)}') == 'ok' and (refs(repo) != refs2 or (head2 in refs2 and head_of(repo) != head2)):
                 r3 = refs(repo)
                 diff = [(n, refs2.get(n), r3.get(n)) for n in sorted(set(refs2) | set(r3)) if refs2.get(n) != r3.get(n)][:3]
-                res['failures'].append(('C08', f'(second run in the same repository) a neutral run changed refs or HEAD: {diff}, HEAD {head2} -> {head_of(repo)}'))
+                # the first run's renames can produce a commit that replaces a file by a directory of the same name: class F12
+                from . import classes
+                cls = '[dir-file-swap] ' if classes.dir_file_swap(None, {'stream_hex': enhex(s_before2)}) else ''
+                res['failures'].append(('C08', f'{cls}(second run in the same repository) a neutral run changed refs or HEAD: {diff}, HEAD {head2} -> {head_of(repo)}'))
         return res
     except Exception as e:
         res['error'] = repr(e)[:400]
@@ -1540,9 +1546,9 @@ def sized_stream(n, blobsize, files_per_commit=1, branches=1):
 def sweep_cases(tier):
     cases = []
     k = 0
-    def add(mode, n, blobsize, shim, args=(), fpc=1):
+    def add(mode, n, blobsize, shim, args=(), fpc=1, damaged=0):
         nonlocal k
-        cases.append(dict(id=k, mode=mode, n=n, blobsize=blobsize, shim=shim, args=list(args), fpc=fpc)); k += 1
+        cases.append(dict(id=k, mode=mode, n=n, blobsize=blobsize, shim=shim, args=list(args), fpc=fpc, damaged=damaged)); k += 1
     # requests in flight × bytes per reply around 64 KiB: 41-byte ids → 1598 per pipe; "<id> blob <size>\n" replies → ~1200 per pipe
     objs = ([300, 1200, 1500, 1600, 1650, 2400, 2800, 2900, 2950, 3000, 3300, 4500, 6000, 12000] if tier == 'quick' else
             [150, 300, 900] + list(range(1400, 3400, 50)) + [4500, 6000, 12000, 30000, 60000, 120000])
@@ -1563,6 +1569,13 @@ def sweep_cases(tier):
         add('filter', n, 9, [None, 'chunk'][len(cases) % 2])
         add('filter', n, 9, ['slow', None][len(cases) % 2], ['--path-rename', 'd1/:moved/', '--max-blob-size', '5'])
         add('filter', n, 9, [None, 'buffer'][len(cases) % 2], ['--path', 'd2/', '--prune-empty', 'always'])
+    # a damaged object store (empty loose-object files, as a crash leaves them): `git cat-file --batch-all-objects` writes one
+    # line per such file to stderr and carries on — 83 bytes each, so 500 stay below a pipe buffer and 1500 / 4000 exceed it
+    for nd in ([500, 1500] if tier == 'quick' else [200, 500, 790, 1500, 4000, 20000]):
+        add('filter', 40, 9, None, ['--max-blob-size', '5'], damaged=nd)
+        add('filter', 40, 9, None, ['--path', 'd1/'], damaged=nd)
+        add('analyze', 40, 9, None, damaged=nd)
+        add('detect', 40, 9, None, damaged=nd)
     # a SHA-256 repository, rewritten twice (the second run finds the first run's maps and asks the importer for ids)
     for n in ([60, 700] if tier == 'quick' else [60, 300, 700, 3000]):
         add('filter-sha256', n, 9, [None, 'chunk'][len(cases) % 2], ['--path-rename', 'd1/:moved/'])
@@ -1603,6 +1616,10 @@ def sweep_case(case):
             tree = git(repo, 'rev-parse', 'b0^{tree}').decode().strip()
             git(repo, 'update-ref', '--stdin', input=''.join(f'create refs/tags/tree-tag-{i:05d} {tree}\n' for i in range(case['n'])).encode())
         nobj = len(git(repo, 'cat-file', '--batch-all-objects', '--batch-check').splitlines())
+        for i in range(case.get('damaged', 0)):
+            h = '%040x' % (0xd0000000000 + i * 7919)
+            os.makedirs(os.path.join(repo, '.git', 'objects', h[:2]), exist_ok=True)
+            open(os.path.join(repo, '.git', 'objects', h[:2], h[2:]), 'wb').close()
         env = dict(GIT_ENV)
         if case['shim']:
             env = perturbed_env(root, case['id'], case['shim'])
@@ -1619,13 +1636,17 @@ def sweep_case(case):
         try:
             p = subprocess.run([FR] + args, cwd=repo, stdout=subprocess.PIPE, stderr=subprocess.PIPE, env=env, timeout=limit)
         except subprocess.TimeoutExpired:
-            res['failures'].append(('C17', f'{case["mode"]} on {nobj} objects (blobs of {case["blobsize"]} bytes, children paced: {case["shim"]}) did not finish within {limit} s'))
+            dmg = f', {case["damaged"]} empty loose-object files in the object store, options {case["args"]}' if case.get('damaged') else ''
+            res['failures'].append(('C17', f'{case["mode"]} on {nobj} objects (blobs of {case["blobsize"]} bytes, children paced: {case["shim"]}{dmg}) did not finish within {limit} s'))
             return res
         dt = time.time() - t0
         count(f'{case["mode"]}-runs'); count('objects', nobj)
         count('paced-' + str(case['shim']))
         res['dist']['max-wall-s'] = int(dt + 1)
-        if p.returncode != 0:
+        if case.get('damaged'):
+            count('damaged-object-store-runs')      # terminating with a reported error is within the property here
+            count('tool-ok' if p.returncode == 0 else 'tool-reported-an-error')
+        elif p.returncode != 0:
             res['failures'].append(('C17', f'{case["mode"]} on {nobj} objects exited with {p.returncode}: {p.stderr.decode("utf-8", "replace")[-200:]}'))
         else:
             count('tool-ok')
